@@ -7,7 +7,9 @@ import (
 	"math/big"
 	"net"
 	"os"
+	"regexp"
 	"runtime"
+	"sort"
 	"strconv"
 	"strings"
 	"sync"
@@ -62,9 +64,14 @@ type legCtx struct {
 	mu    sync.Mutex
 	seed  uint64
 	aggro int
+	// progress ticks with every completed client operation of the running trial (the watchdog's notion of "not stuck")
+	progress atomic.Int64
+	// goroutines that existed before the running trial began (what earlier trials left behind is not this trial's doing)
+	baseline goroutineDump
 }
 
 func (l *legCtx) count(k string, n int64) {
+	l.progress.Add(1)
 	l.mu.Lock()
 	l.rep.Counters[k] += n
 	l.mu.Unlock()
@@ -111,6 +118,7 @@ func ChildMain() int {
 			l.count("trials_skipped_after_three_deadlocks", int64(trials-t))
 			break
 		}
+		l.baseline = dumpGoroutines()
 		sc := NewSched(seed*1000003+uint64(t), aggro)
 		sc.Install()
 		// progress marker for the parent (which trial was running when a crash happened)
@@ -136,51 +144,100 @@ func ChildMain() int {
 		}
 		l.rep.Trials++
 	}
+	if f := os.Getenv("LIVE_FINAL_DUMP"); f != "" {
+		buf := make([]byte, 64<<20)
+		_ = os.WriteFile(f, buf[:runtime.Stack(buf, true)], 0o644)
+	}
 	write()
 	return 0
 }
 
-// waitOrStuck waits for wg; when it does not finish within the (generous, wall-clock) watchdog it
-// samples goroutine stacks twice, 2 s apart, and returns the frames of this repository that are
-// parked identically in both samples (the stable blocked set).
-func waitOrStuck(wg *sync.WaitGroup, pkgs ...string) (stuck bool, frames string) {
-	done := make(chan struct{})
-	go func() { wg.Wait(); close(done) }()
-	select {
-	case <-done:
-		return false, ""
-	case <-time.After(60 * time.Second):
-	}
-	dump := func() string {
-		buf := make([]byte, 4<<20)
-		n := runtime.Stack(buf, true)
-		return string(buf[:n])
-	}
-	a := dump()
-	select {
-	case <-done:
-		return false, ""
-	case <-time.After(2 * time.Second):
-	}
-	b := dump()
-	var keep []string
-	for _, g := range strings.Split(a, "\n\n") {
-		hit := false
-		for _, p := range pkgs {
-			if strings.Contains(g, p) {
-				hit = true
-			}
-		}
-		if !hit {
+// goroutineDump is one full stack dump split into goroutines: id -> (state without the waiting time, frames).
+type goroutineDump map[string][2]string
+
+var waitAnnot = regexp.MustCompile(`, \d+ minutes`)
+
+func dumpGoroutines() goroutineDump {
+	buf := make([]byte, 16<<20)
+	n := runtime.Stack(buf, true)
+	out := goroutineDump{}
+	for _, g := range strings.Split(string(buf[:n]), "\n\n") {
+		parts := strings.SplitN(g, "\n", 2)
+		hdr := strings.SplitN(parts[0], " [", 2)
+		if len(parts) < 2 || len(hdr) < 2 {
 			continue
 		}
-		hdr := strings.SplitN(g, "\n", 2)[0]
-		id := strings.SplitN(hdr, " [", 2)[0]
-		if strings.Contains(b, id+" [") {
-			keep = append(keep, g)
+		out[hdr[0]] = [2]string{waitAnnot.ReplaceAllString(strings.TrimSuffix(hdr[1], "]:"), ""), parts[1]}
+	}
+	return out
+}
+
+var parkedStates = []string{"sync.Mutex.Lock", "sync.RWMutex.RLock", "sync.RWMutex.Lock", "chan send", "chan receive", "select", "semacquire", "sync.Cond.Wait", "sync.WaitGroup.Wait"}
+
+// waitOrStuck waits for wg. The verdict "deadlock" is decided on logical progress, not on the clock: after a generous
+// wall-clock patience (60 s) it looks at two consecutive windows of 10 s; the workers are stuck when the leg's progress
+// counter (every completed client operation ticks it) did not move in either window and a set of goroutines of this
+// repository's packages, born during this trial, is parked in the same blocking state with the same frames at the three
+// sampling points (the stable blocked set, returned). A leg that still makes progress is waited for (up to 10 minutes,
+// then the caller records an inconclusive watchdog): a loaded machine makes a trial slow, never stuck.
+func (l *legCtx) waitOrStuck(wg *sync.WaitGroup, pkgs ...string) (stuck bool, frames string) {
+	done := make(chan struct{})
+	go func() { wg.Wait(); close(done) }()
+	wait := func(d time.Duration) bool {
+		select {
+		case <-done:
+			return true
+		case <-time.After(d):
+			return false
 		}
 	}
-	return true, strings.Join(keep, "\n\n")
+	if wait(60 * time.Second) {
+		return false, ""
+	}
+	for round := 0; round < 27; round++ {
+		p0, s0 := l.progress.Load(), dumpGoroutines()
+		if wait(10 * time.Second) {
+			return false, ""
+		}
+		p1, s1 := l.progress.Load(), dumpGoroutines()
+		if p1 != p0 {
+			continue
+		}
+		if wait(10 * time.Second) {
+			return false, ""
+		}
+		p2, s2 := l.progress.Load(), dumpGoroutines()
+		if p2 != p1 {
+			continue
+		}
+		var ids []string
+		for id, g := range s0 {
+			if _, old := l.baseline[id]; old {
+				continue
+			}
+			hit := false
+			for _, p := range pkgs {
+				hit = hit || strings.Contains(g[1], p)
+			}
+			parked := false
+			for _, st := range parkedStates {
+				parked = parked || g[0] == st
+			}
+			if hit && parked && s1[id] == g && s2[id] == g {
+				ids = append(ids, id)
+			}
+		}
+		if len(ids) == 0 {
+			continue
+		}
+		sort.Strings(ids)
+		var keep []string
+		for _, id := range ids {
+			keep = append(keep, id+" ["+s0[id][0]+"]:\n"+s0[id][1])
+		}
+		return true, strings.Join(keep, "\n\n")
+	}
+	return true, ""
 }
 
 // ---------------------------------------------------------------------------------------
@@ -293,7 +350,7 @@ func (l *legCtx) pubsubTrial(r *vh.RNG, t int) {
 		}
 	}
 	go func() { pubsDone.Wait(); time.Sleep(50 * time.Millisecond); close(stop) }()
-	if stuck, frames := waitOrStuck(&wg, "rpc/ethereum/pubsub"); stuck {
+	if stuck, frames := l.waitOrStuck(&wg, "rpc/ethereum/pubsub"); stuck {
 		if frames != "" {
 			l.viol("deadlock:pubsub", "pubsub", map[string]any{"trial": t, "stable_blocked_set": frames})
 		} else {
@@ -559,7 +616,7 @@ func (l *legCtx) filtersTrial(r *vh.RNG, t int, fx *fixtures) {
 			}
 		}()
 	}
-	if stuck, frames := waitOrStuck(&wg, "rpc/namespaces/ethereum/eth/filters", "rpc/ethereum/pubsub"); stuck {
+	if stuck, frames := l.waitOrStuck(&wg, "rpc/namespaces/ethereum/eth/filters", "rpc/ethereum/pubsub"); stuck {
 		if frames != "" {
 			l.viol("deadlock:filter-system", "filters", map[string]any{"trial": t, "stable_blocked_set": trunc(frames, 6000)})
 		} else {
@@ -589,6 +646,7 @@ func (l *legCtx) filtersTrial(r *vh.RNG, t int, fx *fixtures) {
 			for i := 0; i < 300 && !ok; i++ {
 				time.Sleep(5 * time.Millisecond)
 				res, err := api.GetFilterChanges(id)
+				l.progress.Add(1)
 				if err != nil {
 					break // filter is gone: try a fresh one
 				}
@@ -598,7 +656,7 @@ func (l *legCtx) filtersTrial(r *vh.RNG, t int, fx *fixtures) {
 			}
 		}
 	}()
-	if stuck, frames := waitOrStuck(&pwg, "rpc/namespaces/ethereum/eth/filters", "rpc/ethereum/pubsub"); stuck {
+	if stuck, frames := l.waitOrStuck(&pwg, "rpc/namespaces/ethereum/eth/filters", "rpc/ethereum/pubsub"); stuck {
 		if frames != "" {
 			l.viol("deadlock:filter-system", "filters", map[string]any{"trial": t, "phase": "probe after the storm", "stable_blocked_set": trunc(frames, 6000)})
 		} else {
@@ -625,7 +683,7 @@ func (l *legCtx) filtersTrial(r *vh.RNG, t int, fx *fixtures) {
 	var uwg sync.WaitGroup
 	uwg.Add(1)
 	go func() { defer uwg.Done(); api.UninstallFilter(id) }()
-	if stuck, frames := waitOrStuck(&uwg, "rpc/namespaces/ethereum/eth/filters", "rpc/ethereum/pubsub"); stuck && frames != "" {
+	if stuck, frames := l.waitOrStuck(&uwg, "rpc/namespaces/ethereum/eth/filters", "rpc/ethereum/pubsub"); stuck && frames != "" {
 		l.viol("deadlock:filter-system", "filters", map[string]any{"trial": t, "phase": "uninstall of the probe filter", "stable_blocked_set": trunc(frames, 6000)})
 	}
 }
@@ -772,7 +830,7 @@ func (l *legCtx) websocketTrial(r *vh.RNG, t int, fx *fixtures) {
 			}
 		}()
 	}
-	if stuck, frames := waitOrStuck(&wg, "evermint/v12/rpc"); stuck {
+	if stuck, frames := l.waitOrStuck(&wg, "evermint/v12/rpc"); stuck {
 		if frames != "" {
 			l.viol("deadlock:websocket-server", "websocket", map[string]any{"trial": t, "stable_blocked_set": trunc(frames, 6000)})
 		} else {
